@@ -31,6 +31,60 @@ class Lam:
         return self
 
 
+def _own_nodes(func):
+    """nodes of a function body, not descending into nested functions / lambdas / classes"""
+    stack = list(func.body)
+    while stack:
+        x = stack.pop()
+        yield x
+        for ch in ast.iter_child_nodes(x):
+            if not isinstance(ch, (ast.FunctionDef, ast.AsyncFunctionDef, ast.Lambda, ast.ClassDef)):
+                stack.append(ch)
+
+
+class Record:
+    """an instance of an immutable record class of the repository (typing.NamedTuple subclass): fields by name, iterable in field order"""
+    def __init__(self, cls, fields):
+        self.cls = cls
+        self.fields = fields
+
+    def __repr__(self):
+        return '<%s %s>' % (self.cls.name, self.fields)
+
+    def __deepcopy__(self, memo):
+        return self
+
+    def __iter__(self):
+        return iter(self.fields.values())
+
+    def __len__(self):
+        return len(self.fields)
+
+    def __getitem__(self, i):
+        return list(self.fields.values())[i]
+
+
+_GLOBALS = {}
+_RECORD_CLASSES = {}
+
+
+class Builtin:
+    """a pure function of the standard library as a first-class value (operator.lt ...), applied by the interpreter to computable arguments only"""
+    def __init__(self, name, fn):
+        self.name = name
+        self.fn = fn
+
+    def __repr__(self):
+        return '<%s>' % self.name
+
+    def __deepcopy__(self, memo):
+        return self
+
+
+import operator as _op      # noqa: E402
+_OPERATOR = {k: getattr(_op, k) for k in ('lt', 'le', 'eq', 'ne', 'ge', 'gt', 'add', 'sub', 'mul', 'floordiv', 'mod', 'and_', 'or_', 'xor', 'not_', 'neg', 'contains', 'is_', 'is_not', 'truth', 'getitem')}
+
+
 class FuncRef:
     """a reference to a repository function obtained by attribute access (cls.helper passed as a callback)"""
     def __init__(self, func, bound):
@@ -42,6 +96,8 @@ class FuncRef:
 
 
 class Interp:
+    fallback_resolver = None      # set by core.Repo: calls of functions a change introduced are interpreted in place
+
     def __init__(self, call_hook=None, effect_names=(), budget=20000, resolver=None, depth=0, store_effects=(), attr_hook=None, try_normal_path=False, with_targets=False):
         """call_hook(call_node, args, env) -> (True, value) | None.  effect_names: callee names whose calls are
         observable effects (recorded with evaluated args)."""
@@ -67,6 +123,19 @@ class Interp:
                 r = self._call(n, env)
                 if r is not None:
                     return r
+            if isinstance(n, ast.Attribute) and isinstance(n.value, ast.Name) and n.value.id == 'operator' and 'operator' not in env and n.attr in _OPERATOR:
+                return (True, Builtin('operator.' + n.attr, _OPERATOR[n.attr]))
+            if isinstance(n, ast.Name) and isinstance(n.ctx, ast.Load) and n.id not in env:
+                g = self._global_const(n)
+                if g is not None:
+                    return g
+            if isinstance(n, ast.Attribute) and isinstance(n.ctx, ast.Load) and unparse(n) not in env and isinstance(n.value, ast.Name):
+                bv = env.get(n.value.id)
+                if bv is None and n.value.id not in env:
+                    g = self._global_const(n.value)
+                    bv = g[1] if g is not None else None
+                if isinstance(bv, Record) and n.attr in bv.fields:
+                    return (True, bv.fields[n.attr])
             if self.attr_hook is not None and isinstance(n, ast.Attribute) and isinstance(n.ctx, ast.Load) and unparse(n) not in env:
                 try:
                     base = ev(n.value, env, hook)
@@ -167,6 +236,52 @@ class Interp:
             r = self.call_hook(n, env, self)
             if r is not None:
                 return r
+        rc = self._record_class(n) if isinstance(fn, ast.Name) and fn.id not in env else None
+        if rc is not None:
+            names, defaults = [], {}
+            for st_ in rc.body:
+                if isinstance(st_, ast.AnnAssign) and isinstance(st_.target, ast.Name):
+                    names.append(st_.target.id)
+                    if st_.value is not None:
+                        defaults[st_.target.id] = st_.value
+            if len(n.args) <= len(names) and all(k.arg in names for k in n.keywords):
+                fields = {}
+                for nm_, a_ in zip(names, n.args):
+                    fields[nm_] = self.value(a_, env)
+                for k in n.keywords:
+                    fields[k.arg] = self.value(k.value, env)
+                for nm_ in names:
+                    if nm_ not in fields:
+                        if nm_ not in defaults:
+                            raise Unknown('record %s constructed without %s' % (rc.name, nm_))
+                        fields[nm_] = self.value(defaults[nm_], {})
+                return (True, Record(rc, {nm_: fields[nm_] for nm_ in names}))
+        if isinstance(fn, ast.Attribute) and isinstance(fn.value, ast.Name) and not n.keywords:
+            bv = env.get(fn.value.id)
+            if bv is None and fn.value.id not in env:
+                g_ = self._global_const(fn.value)
+                bv = g_[1] if g_ is not None else None
+            if isinstance(bv, Record):
+                if fn.attr in bv.fields and isinstance(bv.fields[fn.attr], Lam):
+                    lam = bv.fields[fn.attr]
+                    ps = [a.arg for a in lam.node.args.args]
+                    if len(ps) == len(n.args):
+                        e2 = dict(lam.env)
+                        for p_, a_ in zip(ps, n.args):
+                            e2[p_] = self.value(a_, env)
+                        return (True, self.value(lam.node.body, e2))
+                meth = next((st_ for st_ in bv.cls.body if isinstance(st_, ast.FunctionDef) and st_.name == fn.attr), None)
+                if meth is not None and self.depth < 4:
+                    return (True, self._inline(n, meth, env, receiver=bv))
+        if not n.keywords and ((isinstance(fn, ast.Name) and isinstance(env.get(fn.id), Builtin)) or (isinstance(fn, ast.Attribute) and isinstance(fn.value, ast.Name) and fn.value.id == 'operator' and 'operator' not in env and fn.attr in _OPERATOR)):
+            b_ = env[fn.id] if isinstance(fn, ast.Name) else Builtin('operator.' + fn.attr, _OPERATOR[fn.attr])
+            args_ = [self.value(a_, env) for a_ in n.args]
+            if any(isinstance(a_, Opaque) for a_ in args_):
+                raise Unknown('%s of a value that is not computable (%s)' % (b_.name, loc(n)))
+            try:
+                return (True, b_.fn(*args_))
+            except Exception as ex:      # noqa: BLE001
+                raise Unknown('%s%r raises %s' % (b_.name, tuple(args_)[:2], type(ex).__name__))
         if isinstance(fn, ast.Name) and isinstance(env.get(fn.id), Lam) and not n.keywords:
             lam = env[fn.id]
             ps = [a.arg for a in lam.node.args.args]
@@ -203,6 +318,34 @@ class Interp:
                         else:
                             raise Unknown('sorted(key=<uncomputable>) (%s)' % loc(n))
                 return (True, sorted(seq, key=keyf, reverse=rev))
+        tname = ''
+        if isinstance(fn, ast.Name) and fn.id in ('zip_longest', 'chain', 'attrgetter', 'itemgetter'):
+            tname = fn.id
+        elif isinstance(fn, ast.Attribute) and fn.attr in ('zip_longest', 'chain', 'from_iterable', 'attrgetter', 'itemgetter'):
+            tname = unparse(fn)
+        if tname in ('itertools.zip_longest', 'zip_longest') and n.args and all(k.arg == 'fillvalue' for k in n.keywords):
+            seqs = [self.value(a, env) for a in n.args]
+            fill = self.value(n.keywords[0].value, env) if n.keywords else None
+            if all(isinstance(q, (list, tuple)) for q in seqs):
+                import itertools as _it
+                return (True, [tuple(t_) for t_ in _it.zip_longest(*seqs, fillvalue=fill)])
+            raise Unknown('zip_longest over an uncomputable sequence (%s)' % loc(n))
+        if tname in ('itertools.chain', 'chain') and not n.keywords:
+            seqs = [self.value(a, env) for a in n.args]
+            if all(isinstance(q, (list, tuple)) for q in seqs):
+                return (True, [x_ for q in seqs for x_ in q])
+            raise Unknown('chain over an uncomputable sequence (%s)' % loc(n))
+        if tname in ('itertools.chain.from_iterable', 'chain.from_iterable') and len(n.args) == 1 and not n.keywords:
+            seq = self.value(n.args[0], env)
+            if isinstance(seq, (list, tuple)) and all(isinstance(q, (list, tuple)) for q in seq):
+                return (True, [x_ for q in seq for x_ in q])
+            raise Unknown('chain.from_iterable over an uncomputable sequence (%s)' % loc(n))
+        if tname in ('operator.attrgetter', 'attrgetter', 'operator.itemgetter', 'itemgetter') and len(n.args) == 1 and not n.keywords and not (isinstance(getattr(n, '_parent', None), ast.keyword)):
+            a0 = self.value(n.args[0], env)
+            if tname.endswith('attrgetter') and isinstance(a0, str) and all(p_.isidentifier() for p_ in a0.split('.')):
+                return (True, Lam(ast.parse('lambda _o: _o.%s' % a0, mode='eval').body, {}))
+            if tname.endswith('itemgetter') and isinstance(a0, (int, str)):
+                return (True, Lam(ast.parse('lambda _o: _o[%r]' % (a0,), mode='eval').body, {}))
         if isinstance(fn, ast.Name) and fn.id == 'map' and len(n.args) == 2 and not n.keywords:
             fobj = self.value(n.args[0], env)
             seq = self.value(n.args[1], env)
@@ -260,10 +403,16 @@ class Interp:
             callee = self.resolver(n)
             if callee is not None:
                 return (True, self._inline(n, callee, env))
+        if self.fallback_resolver is not None and self.depth < 4:
+            callee = self.fallback_resolver(n)
+            if callee is not None:
+                return (True, self._inline(n, callee, env))
         if isinstance(fn, ast.Attribute) and fn.attr == 'join' and len(n.args) == 1:
             sep = self.value(fn.value, env)
             seq = self.value(n.args[0], env)
             if isinstance(sep, str) and isinstance(seq, (list, tuple)) and all(isinstance(x, str) for x in seq):
+                return (True, sep.join(seq))
+            if isinstance(sep, bytes) and isinstance(seq, (list, tuple)) and all(isinstance(x, (bytes, bytearray)) for x in seq):
                 return (True, sep.join(seq))
             if isinstance(sep, str) and isinstance(seq, set) and all(isinstance(x, str) for x in seq):
                 return (True, sep.join(sorted(seq)))
@@ -273,7 +422,22 @@ class Interp:
             if isinstance(base, str):
                 args = [self.value(a, env) for a in n.args]
                 kws = {k.arg: self.value(k.value, env) for k in n.keywords}
+                if any(isinstance(a, Opaque) for a in args) or any(isinstance(a, Opaque) for a in kws.values()):
+                    raise Unknown('format() of a value that is not computable (%s)' % loc(n))
                 return (True, base.format(*args, **kws))
+        if isinstance(fn, ast.Name) and fn.id == 'dict' and len(n.args) <= 1 and all(k.arg is not None for k in n.keywords):
+            base = {}
+            if n.args:
+                src = self.value(n.args[0], env)
+                if isinstance(src, dict):
+                    base = dict(src)
+                elif isinstance(src, (list, tuple)) and all(isinstance(p_, (list, tuple)) and len(p_) == 2 for p_ in src):
+                    base = dict(src)
+                else:
+                    raise Unknown('dict() of a value that is not a computable mapping (%s)' % loc(n))
+            for k in n.keywords:
+                base[k.arg] = self.value(k.value, env)
+            return (True, base)
         if isinstance(fn, ast.Name) and fn.id in ('list', 'sorted', 'set', 'tuple', 'reversed') and len(n.args) <= 1 and not n.keywords:
             if not n.args:
                 return (True, {'list': [], 'sorted': [], 'set': set(), 'tuple': (), 'reversed': []}[fn.id])
@@ -364,7 +528,44 @@ class Interp:
                 raise Unknown('pop of a missing key from a tracked dict (%s)' % loc(n))
         return None
 
-    def _inline(self, call, callee, env):
+    def _global_const(self, name_node):
+        """(True, value) for a module-level name of the analysed module whose defining expression the interpreter can evaluate (tables, records,
+        lambdas); None otherwise.  Only names assigned exactly once at module level and never stored to elsewhere in the module."""
+        mod = getattr(name_node, '_module', None)
+        if mod is None or not hasattr(mod, 'tree'):
+            return None
+        key = (id(mod.tree), name_node.id)
+        if key in _GLOBALS:
+            return _GLOBALS[key]
+        _GLOBALS[key] = None
+        defs = [st for st in mod.tree.body if isinstance(st, (ast.Assign, ast.AnnAssign)) and any(isinstance(t, ast.Name) and t.id == name_node.id for t in (st.targets if isinstance(st, ast.Assign) else [st.target]))]
+        if len(defs) != 1 or defs[0].value is None:
+            return None
+        for x in ast.walk(mod.tree):
+            if isinstance(x, ast.Global) and name_node.id in x.names:
+                return None
+        try:
+            v = Interp(depth=self.depth + 1, budget=5000).value(defs[0].value, {})
+        except Unknown:
+            return None
+        if isinstance(v, Opaque):
+            return None
+        _GLOBALS[key] = (True, v)
+        return _GLOBALS[key]
+
+    @staticmethod
+    def _record_class(call):
+        """the NamedTuple class of the analysed module a call constructs, or None"""
+        f = call.func
+        mod = getattr(call, '_module', None)
+        if not isinstance(f, ast.Name) or mod is None or not hasattr(mod, 'tree'):
+            return None
+        key = id(mod.tree)
+        if key not in _RECORD_CLASSES:
+            _RECORD_CLASSES[key] = {st.name: st for st in ast.walk(mod.tree) if isinstance(st, ast.ClassDef) and any(unparse(b).split('.')[-1] == 'NamedTuple' for b in st.bases)}
+        return _RECORD_CLASSES[key].get(f.id)
+
+    def _inline(self, call, callee, env, receiver=None):
         """Interpret a resolved helper in place: parameters bound to the evaluated arguments, `self.*` facts inherited.
         The helper must finish on a single path with a computable return value."""
         params = [a.arg for a in callee.args.args]
@@ -372,7 +573,7 @@ class Interp:
         skip_self = bool(params) and params[0] in ('self', 'cls') and isinstance(call.func, ast.Attribute)
         if skip_self:
             params = params[1:]
-        if isinstance(getattr(callee, '_parent', None), (ast.FunctionDef, ast.AsyncFunctionDef)):
+        if isinstance(getattr(callee, '_parent', None), (ast.FunctionDef, ast.AsyncFunctionDef)) or isinstance(getattr(callee, '_func', None), (ast.FunctionDef, ast.AsyncFunctionDef)):
             # a nested function reads its enclosing function's variables (closure): it sees the caller's environment
             e2 = {k: v for k, v in env.items() if not (isinstance(k, str) and k.startswith('<'))}
         else:
@@ -392,6 +593,8 @@ class Interp:
         missing = [p for p in params if p not in e2]
         if missing:
             raise Unknown('call of %s without a value for %s' % (callee.name, missing))
+        if receiver is not None and params_all:
+            e2[params_all[0]] = receiver
         sub = Interp(self.call_hook, self.effect_names, self.budget, self.resolver, self.depth + 1, self.store_effects, self.attr_hook, self.try_normal_path, self.with_targets)
         finals = sub.run(callee.body, e2)
         if len(finals) == 1 and finals[0].get('<crash>'):
@@ -412,6 +615,8 @@ class Interp:
         for nm, args, k in fe.get('<effects>', []):
             self.nodes.append(sub.nodes[k])
             env.setdefault('<effects>', []).append((nm, args, len(self.nodes) - 1))
+        if any(isinstance(x, (ast.Yield, ast.YieldFrom)) for x in _own_nodes(callee)):
+            return list(fe.get('<yields>', []))       # a generator function, interpreted eagerly: the sequence it yields
         v = fe.get('<return>') if fe.get('<outcome>') == 'return' else None
         if isinstance(v, Opaque):
             raise Unknown('helper %s returns an uncomputable value' % callee.name)
@@ -581,7 +786,23 @@ class Interp:
             raise Unknown('path explosion in the list interpreter')
         if not isinstance(st, (ast.If, ast.For, ast.While, ast.With, ast.Try)):
             self._seen_calls = set()
+        if isinstance(st, ast.FunctionDef) and not st.decorator_list:
+            e[st.name] = FuncRef(st, False)       # a nested function is a value (it may be stored in a table and called through it); it reads the caller's variables
+            return [], [e]
         if isinstance(st, (ast.FunctionDef, ast.AsyncFunctionDef, ast.ClassDef, ast.Pass, ast.Import, ast.ImportFrom, ast.Global, ast.Nonlocal)):
+            return [], [e]
+        if isinstance(st, ast.Expr) and isinstance(st.value, (ast.Yield, ast.YieldFrom)):
+            # inside a generator function interpreted eagerly (see _inline): the yielded values are collected in order
+            if st.value.value is None:
+                item = None
+            else:
+                item = self.value(st.value.value, e)
+            if isinstance(st.value, ast.YieldFrom):
+                if not isinstance(item, (list, tuple)):
+                    raise Unknown('yield from a value that is not a computable sequence (%s)' % loc(st))
+                e.setdefault('<yields>', []).extend(item)
+            else:
+                e.setdefault('<yields>', []).append(item)
             return [], [e]
         if isinstance(st, ast.Expr):
             v = st.value
@@ -599,6 +820,10 @@ class Interp:
                         raise
                     if handled is not None:
                         return [], [e]
+                if isinstance(fn, ast.Name) and isinstance(e.get(fn.id), (FuncRef, Lam, Builtin)) and self.depth < 4:
+                    self._seen_calls.add(id(v))
+                    self.value(v, e)          # a function value called for its effects (a nested function stored in a table, a callback): interpreted in place
+                    return [], [e]
                 if nm == 'setattr' and isinstance(fn, ast.Name) and len(v.args) == 3 and not v.keywords:
                     try:
                         an = self.value(v.args[1], e)
@@ -614,6 +839,12 @@ class Interp:
                     if callee is not None:
                         self._seen_calls.add(id(v))
                         self._inline(v, callee, e)      # a repository helper called for its effects: interpreted in place
+                        return [], [e]
+                if nm not in self.effect_names and self.fallback_resolver is not None and self.depth < 4:
+                    callee = self.fallback_resolver(v)
+                    if callee is not None:
+                        self._seen_calls.add(id(v))
+                        self._inline(v, callee, e)
                         return [], [e]
                 if nm in self.effect_names:
                     args = []
